@@ -289,6 +289,16 @@ def check_state(st, out, deep, n=0, only=None):
         if elem.interior_dofs and any(k2d.get(('i', c, s)) != int(dofs.interior_dofs[s, c])
                                       for c in range(T.nt) for s in range(elem.interior_dofs)):
             bad('interior_dofs-table', "interior_dofs[s, c] differs from the per-cell numbering")
+        # the optional start number shifts the whole numbering (composite numberings are built from it)
+        if n <= 2:
+            try:
+                d7 = Dofs(m, ent.make(), offset=7)
+                if not np.array_equal(d7.element_dofs, ed + 7):
+                    bad('offset', "Dofs(mesh, elem, offset=7).element_dofs is not the default numbering shifted by 7")
+            except TypeError:
+                pass
+            except Exception as e:
+                bad('offset-exception', repr(e))
         shared = any(True for key in k2d if key[0] != 'i') and T.nt >= 2
         if shared or (T.nt >= 2):
             out.nt((st.key(), ent.name))
@@ -326,7 +336,11 @@ def deep_checks(st, m, T, ent, elem, keys, ed, N, bad, out):
             loc = b.mapping.F(b.elem.doflocs.T)       # (dim, nt, Nbfun)
         except Exception:
             loc = None
-        if loc is not None and loc.shape[2] == ed.shape[0]:
+        if loc is not None and loc.shape[2] == ed.shape[0] and (dl.shape[0] != loc.shape[0] or dl.shape[1] != N):
+            bad('doflocs-shape', f"the DOF location table has shape {dl.shape}; the mapping returns {loc.shape[0]} coordinates per point and "
+                f"the basis has N = {N} DOFs")
+            dl_ok = False
+        elif loc is not None and loc.shape[2] == ed.shape[0]:
             for l in range(ed.shape[0]):
                 d = np.abs(dl[:, ed[l]] - loc[:, :, l]).max()
                 if d > 1e-12:
